@@ -65,6 +65,10 @@ type Program struct {
 	Mutator []Step
 	Flusher []Step
 	Readers [][]Step
+	// Callbacks, when set, are installed in the store (reference count monitor).
+	Callbacks *gkvlite.StoreCallbacks
+	// CloseAtEnd closes the store after the final read (end-of-life balance checks).
+	CloseAtEnd bool
 }
 
 // Event is one recorded client call.
@@ -159,11 +163,18 @@ func Run(p *Program, mode Mode) (*History, *vfile.File) {
 	}
 	open := func() {
 		var err error
+		var cb gkvlite.StoreCallbacks
+		if p.Callbacks != nil {
+			cb = *p.Callbacks
+		}
+		if r.s != nil && p.Callbacks != nil {
+			r.s.Close() // release what the set-up store cached before re-opening
+		}
 		if p.MemOnly {
-			r.s, err = gkvlite.NewStore(nil)
+			r.s, err = gkvlite.NewStoreEx(nil, cb)
 		} else {
 			r.setTag("Open")
-			r.s, err = gkvlite.NewStore(r.f)
+			r.s, err = gkvlite.NewStoreEx(r.f, cb)
 			r.setTag("")
 		}
 		if err != nil {
@@ -176,8 +187,15 @@ func Run(p *Program, mode Mode) (*History, *vfile.File) {
 		r.colls[n] = c
 		m := model.NewColl(model.CmpBytes)
 		for _, kv := range p.Initial[n] {
-			if err := c.SetItem(&gkvlite.Item{Key: kv.Key, Val: kv.Val, Priority: kv.Prio}); err != nil {
+			it := &gkvlite.Item{Key: kv.Key, Val: kv.Val, Priority: kv.Prio}
+			if p.Callbacks != nil && p.Callbacks.ItemAddRef != nil {
+				p.Callbacks.ItemAddRef(c, it) // the application's own reference ...
+			}
+			if err := c.SetItem(it); err != nil {
 				panic(err)
+			}
+			if p.Callbacks != nil && p.Callbacks.ItemDecRef != nil {
+				p.Callbacks.ItemDecRef(c, it) // ... dropped after SetItem
 			}
 			m.Set(kv.Key, kv.Val, kv.Prio)
 		}
@@ -267,6 +285,9 @@ func Run(p *Program, mode Mode) (*History, *vfile.File) {
 			r.h.Panics = append(r.h.Panics, "final read of "+n+": "+err.Error())
 		}
 		r.h.Final[n] = seq
+	}
+	if p.CloseAtEnd {
+		r.s.Close()
 	}
 	return r.h, r.f
 }
@@ -382,6 +403,7 @@ func (r *runner) worker(id int, steps []Step) {
 					kv.Val = append([]byte{}, it.Val...)
 				}
 				ev.Seq = []model.KV{kv}
+				r.s.ItemDecRef(c, it) // the caller releases what Min/MaxItem handed out
 			}
 		case RTotals:
 			r.setTag("Totals")
